@@ -87,6 +87,7 @@ func init() {
 		symPkg + ".NondetMapOrder": func(fr *frame, args []value) value { fr.i.nondetMapOrder = true; return nil },
 		symPkg + ".LiveThreads":    func(fr *frame, args []value) value { return fr.i.liveThreads() },
 		symPkg + ".Concretize":     symConcretize,
+		symPkg + ".Settle":         func(fr *frame, args []value) value { fr.i.finishThreads(); return nil },
 		symPkg + ".Yield":          func(fr *frame, args []value) value { fr.i.yield(fr); return nil },
 		symPkg + ".Clock":          symClock,
 		symPkg + ".Instant":        symInstant,
